@@ -547,3 +547,185 @@ def control(ctx, rule, what, fn):
     fn(scratch)
     hits = [v for v in scratch.violations if "FLOOR" not in v["key"] and "ANCHOR-LOST" not in v["key"]]
     ctx.R.check(bool(hits), rule + ".control", "control:" + what, "positive control: the rule fires on the fixture (%d reports, e.g. %s)" % (len(hits), hits[0]["what"][:90] if hits else ""), "positive control failed: the rule does not fire on the fixture construct `%s`, so a pass on the real tree means nothing" % what, None)
+
+
+CFG_OWNERS = ("jsonrpsee_server::server::ServerConfig", "jsonrpsee_server::server::ServerConfigBuilder")
+
+
+def config_field_integrity(ctx, rule, field, floor=4, owners=CFG_OWNERS):
+    """the configured value of `field` travels verbatim from the user's setter call to the ServerConfig the transports
+    read: every write of the field (struct constructions and assignments, non-test code) takes its value from a parameter
+    (the setter) or from the same-named field of another config value (Clone, build()); constants / fresh variants appear
+    only inside `default()` constructors. A setter that rewrites the value, or a builder step that rebuilds the config
+    from defaults, makes the server enforce a different limit than the configured one."""
+    F, R = ctx.F, ctx.R
+    tr = ctx.tracer(follow_callers=False, follow_fields=False, inline_calls=False)
+    tr.field_writes("-", "-")
+    n = 0
+    for (owner, fname), lst in sorted(tr._field_writes.items()):
+        if fname != field or owner not in owners:
+            continue
+        for b, op in lst:
+            if is_test_body(b):
+                continue
+            n += 1
+            in_default = bool(re.search(r"Default>::default$|::default$|::new$", b.path))
+            key = "%s:%s.%s" % (fkey(b), owner.split("::")[-1], field)
+            if "rvwrap" in op:
+                R.bad(rule, key, "%s computes %s.%s with `%s` instead of storing the configured value" % (short(b.path), owner.split("::")[-1], field, op["rvwrap"]["k"]), "%s:%d" % (b.file, b.lo))
+                continue
+            lv = tr.origins(b, op)
+            bad = []
+            for l in lv:
+                if l.kind == "param" and l.detail.get("name") != "<env>":
+                    continue
+                if l.kind == "field" and l.detail["fields"] and l.detail["fields"][-1][1] == field:
+                    continue
+                if in_default and l.kind in ("const", "agg"):
+                    continue
+                bad.append(flow.leaf_str(l))
+            R.check(not bad and bool(lv), rule, key, "%s stores %s verbatim" % (short(b.path), field), "%s does not carry the configured `%s` verbatim: the value written to %s.%s comes from %s (a setter must store what it is given; a config rebuilt from defaults silently drops the configured limit)" % (short(b.path), field, owner.split("::")[-1], field, bad or "nothing traceable"), "%s:%d" % (b.file, b.lo))
+    R.floor(rule, n, floor, "writes of the config field `%s`" % field)
+
+
+def limit_gates(ctx, rule, field, crates, floor, what="message"):
+    """every ordering comparison against the configured `field` anywhere in `crates` states the inclusive boundary: in the
+    normal form `size REL limit` only `>` (refuse) and `<=` (admit) are boundary-correct; `>=` / `<` refuse or special-case
+    a %s of exactly the limit. Found by dataflow (one operand originates from the config field), not by location."""
+    F, R = ctx.F, ctx.R
+    tr = ctx.tracer()
+    n = 0
+    for b in F.real_bodies():
+        if b.crate not in crates or is_test_body(b):
+            continue
+        for bi, blk in enumerate(b.blocks):
+            if bi not in b.reachable or blk.get("cleanup"):
+                continue
+            for si, st in enumerate(blk["st"]):
+                if st["s"] != "assign" or st["rv"]["k"] != "bin" or st["rv"]["op"] not in ("Lt", "Le", "Gt", "Ge"):
+                    continue
+                if st.get("exp"):
+                    pass
+                rv = st["rv"]
+                sides = []
+                for o in (rv["a"], rv["b"]):
+                    lv = tr.origins(b, o)
+                    is_lim = any(l.kind == "field" and terminal_field(l)[1] == field for l in lv)
+                    sides.append((is_lim, lv))
+                if sides[0][0] == sides[1][0]:
+                    continue
+                n += 1
+                limit_is_a = sides[0][0]
+                rel = _SYM[_SWAP[rv["op"]] if limit_is_a else rv["op"]]
+                other = sides[1][1] if limit_is_a else sides[0][1]
+                k = sum(1 for x in range(si) if blk["st"][x]["s"] == "assign" and blk["st"][x]["rv"]["k"] == "bin")
+                R.check(rel in (">", "<="), rule, "%s:gate:%s" % (fkey(b), "-".join(sorted({leaf_kind_name(l) for l in other}))[:80]),
+                        "comparison `%s %s %s` keeps the limit inclusive" % (what, rel, field),
+                        "%s compares `%s %s %s` (%s): a %s of exactly the configured limit is treated as oversized/special, the property admits everything up to and including the limit" % (short(b.path), what, rel, field, [leaf_str(l)[:60] for l in other][:3], what),
+                        "%s:%d" % (b.file, st["sp"][0]))
+    R.floor(rule, n, floor, "comparisons against the configured %s" % field)
+
+
+def leaf_kind_name(l):
+    if l.kind == "call":
+        return "call:" + (l.detail.get("callee") or "?").split("::")[-1]
+    if l.kind == "param":
+        return "param%s" % l.detail.get("idx")
+    if l.kind == "field":
+        return "field:" + str(terminal_field(l)[1])
+    return l.kind
+
+
+LOCK_CALL = r"ThreadSafeRequestManager::lock$|^std::sync::Mutex::<.*>::lock$|^std::sync::RwLock::<.*>::(read|write)$|^std::sync::poison::(mutex::)?Mutex::<.*>::lock$|^std::sync::poison::(rwlock::)?RwLock::<.*>::(read|write)$|parking_lot::.*(Mutex|RwLock).*::(lock|read|write)$"
+GUARD_TY = re.compile(r"(MutexGuard|RwLockReadGuard|RwLockWriteGuard)<")
+
+
+def _guarded_type(ty):
+    m = re.search(r"(?:MutexGuard|RwLockReadGuard|RwLockWriteGuard)<'?\w*,?\s*(.*)>", ty or "")
+    return m.group(1) if m else None
+
+
+def guard_holders(b, c):
+    """(locals that hold the guard produced by lock call c, guarded type)"""
+    if c.dest is None:
+        return set(), None
+    holders = set(follow_value(b, c.dest["l"]))
+    changed = True
+    while changed:
+        changed = False
+        for x in b.calls_to(r"Result::<.*>::(expect|unwrap|unwrap_or_else)$|Option::<.*>::(expect|unwrap)$"):
+            p0 = op_place(x.args[0]) if x.args else None
+            if p0 is not None and p0["l"] in holders and x.dest and x.dest["l"] not in holders:
+                holders |= set(follow_value(b, x.dest["l"]))
+                changed = True
+    gty = None
+    for h in sorted(holders):
+        ty = b.locals[h]["ty"]
+        if re.match(r"^(std::sync::|parking_lot::(lock_api::)?|std::sync::poison::(mutex::|rwlock::)?)\w*Guard<", ty):
+            gty = gty or _guarded_type(ty)
+    holders = {h for h in holders if GUARD_TY.search(b.locals[h]["ty"]) and not b.locals[h]["ty"].startswith("&")}
+    return holders, gty
+
+
+def double_lock_scan(F, R, rule, path_pat, direct_only=False):
+    """a blocking (std) lock is not re-acquired while a guard of the same lock is alive: the region in which a guard local
+    lives (from the acquisition to every drop of the local holding it) contains no second acquisition of a lock guarding
+    the same type, neither directly nor inside a crate function called in that region. std::sync::Mutex is not reentrant,
+    a second lock() on the same thread blocks forever."""
+    n = 0
+    locks_in = {}
+
+    def locks_of(b):
+        if b.path not in locks_in:
+            locks_in[b.path] = [c for c in b.calls_to(LOCK_CALL)]
+        return locks_in[b.path]
+
+    for b in F.real_bodies():
+        if not re.search(path_pat, b.path) or is_test_body(b):
+            continue
+        acq = locks_of(b)
+        if not acq:
+            continue
+        for c in acq:
+            if c.dest is None or c.target is None:
+                continue
+            holders, gty = guard_holders(b, c)
+            if not holders or gty is None:
+                continue
+            n += 1
+            # blocks that end the guard's life: the drop of the *last* holder in the move chain (moves out of earlier
+            # holders leave them empty, their drops are no-ops and are elided or flagged by drop elaboration later)
+            ends = set()
+            for bi, blk in enumerate(b.blocks):
+                t = blk["term"]
+                if not t:
+                    continue
+                if t["t"] == "drop" and not t["pl"].get("p") and t["pl"]["l"] in holders and re.match(r"^(std::sync::|parking_lot::)", b.locals[t["pl"]["l"]]["ty"]) and not b.locals[t["pl"]["l"]]["ty"].startswith("std::result::"):
+                    ends.add(bi)
+                if t["t"] == "call":
+                    cal = (op_const(t["f"]) or {}).get("fn", "")
+                    if cal.endswith("mem::drop"):
+                        p0 = op_place(t["args"][0])
+                        if p0 is not None and p0["l"] in holders:
+                            ends.add(bi)
+            live = b.reach_from(c.target, avoid=ends) | {c.target}
+            live -= ends
+            for c2 in acq:
+                if c2 is c or c2.bb not in live:
+                    continue
+                _h2, ty2 = guard_holders(b, c2)
+                if ty2 == gty:
+                    R.bad(rule, "%s:relock:%s" % (fkey(b), gty.split("::")[-1][:40]), "%s acquires the lock on %s again while a guard taken at line %d is still alive (std locks are not reentrant: this thread blocks forever, and every task that needs the lock after it)" % (short(b.path), short(gty), c.line), where(c2))
+            if direct_only:
+                continue
+            for x in b.calls:
+                if x.bb not in live or x is c:
+                    continue
+                tgt = F.bodies.get(x.name() or "")
+                if tgt is None or tgt.path == b.path or re.search(LOCK_CALL, tgt.path):
+                    continue
+                for c3 in locks_of(tgt):
+                    _h3, ty3 = guard_holders(tgt, c3)
+                    if ty3 == gty:
+                        R.bad(rule, "%s:relock-in-callee:%s" % (fkey(b), short(tgt.path)), "%s calls %s, which locks %s, while holding a guard of the same lock taken at line %d" % (short(b.path), short(tgt.path), short(gty), c.line), where(x))
+    return n
